@@ -295,7 +295,13 @@ func legacyStream3(keys []string, vals *ValSpec, variant string) ([]byte, bool) 
 
 // ---- fixture access --------------------------------------------------------
 
-const fixtureDir = "/repo/trie/testdata"
+// fixtureDir follows the repository under test (bin/env.sh exports VERIF_REPO).
+var fixtureDir = func() string {
+	if v := os.Getenv("VERIF_REPO"); v != "" {
+		return v + "/trie/testdata"
+	}
+	return "/repo/trie/testdata"
+}()
 
 var fixtureSets = []string{"empty", "10vl5", "11vl5", "300vl50", "10ll16k", "20kl10", "20kvl10", "50kl10", "50kvl10"}
 
